@@ -34,6 +34,46 @@ CHECKS = {
                 text="Kani/CBMC decides for all operand payloads that each of the 22 operator traits derived from a struct computes the field-wise reference in all 8 "
                      "owned/reference forms, with exactly one call per field in order and operands in the right order (non-commutative recording field type).",
                 note=E1_NOTE, tech="Kani/CBMC bounded model checking of macro-generated operator impls with operand-order traces"),
+    "C09": dict(engine="E1 kani-gen", ref="DESIGN.md §6 C09",
+                text="Kani/CBMC decides for all operand payloads that every impl derive_ex generates from a user-written `impl Op`/`impl OpAssign` returns the base impl's result on "
+                     "the same operands in the same order, calls it exactly once and clones an operand exactly when it was received by reference but is needed by value.",
+                note=E1_NOTE + " One recorded known finding (Self in the where-clause of a base impl on &T), see known_findings.json.",
+                tech="Kani/CBMC bounded model checking of macro-generated forwarding impls with call/clone traces"),
+    "C11": dict(engine="E1 kani-gen", ref="DESIGN.md §6 C11",
+                text="Kani/CBMC decides that default() returns the reference value for every program of a grammar over shapes, default-variant choices, per-field default "
+                     "expression kinds (symbolic seeds behind call/block expressions, conversion-observing field types) and type-level values.",
+                note=E1_NOTE + " The Into/no-Into decision per Expr kind and the enum rejection rules are read off compile verdicts only.",
+                tech="Kani/CBMC bounded model checking of macro-generated Default impls"),
+    "C03": dict(engine="E3 mir-smt", ref="DESIGN.md §3, §6 C03",
+                text="Symbolic path execution of every builder's MIR with z3: per path, the field-type bounds pushed are exactly those of the fields the documentation calls used, "
+                     "given the bound(..) chain reached its end; plus the parameter-mention kernel (GenericParamSet::new, Visitor::visit_path). Restricted scope: the trait-solver "
+                     "clause of the statement is not decided.",
+                note="Trusted: rustc's MIR dump, the executor's MIR subset semantics and callee models (validated by native replay of every counterexample), z3. Token plumbing is opaque. "
+                     "Bounds: <=2 fields, 1 variant. Restricted claim: used-field rule + parameter-mention kernel only.",
+                tech="symbolic execution of rustc MIR + z3 (one query per path), native replay of models"),
+    "C04": dict(engine="E3 mir-smt", ref="DESIGN.md §3, §6 C04",
+                text="Symbolic path execution of every builder's MIR (Clone, Copy, Debug, Default, Deref, operators, five comparison traits; struct and enum) with z3: per path the "
+                     "sequence of bound(..) levels consulted equals the documented nine-level resolution under the path condition, with presence / `..` / entry-presence of every level symbolic. "
+                     "Counterexamples are turned into items with one marker predicate per level and replayed through the real macro.",
+                note="Trusted: rustc's MIR dump, the executor's MIR subset semantics and callee models, z3 (thorough: cross-checked with z3 4.8.12 and cvc5). Bounds: <=2 variants x <=2 fields. "
+                     "Outside: Bound::parse / Bounds::from, build_default_for_enum, retention of the type's own where-clause (WhereClauseBuilder::new is opaque).",
+                tech="symbolic execution of rustc MIR + z3 (one query per path), native replay of models"),
+    "C05": dict(engine="E3 mir-smt", ref="DESIGN.md §3, §6 C05",
+                text="Symbolic path execution of the five comparison body builders, the placement verifier and the per-entry error isolation with z3: a path returns Err exactly when "
+                     "the documented rejection rule holds for some existing field under the path condition (all 20 attribute-presence atoms of a field symbolic).",
+                note="Trusted: rustc's MIR dump, executor semantics (validated on every run against the real macro on sampled configurations), z3. Bounds: <=2 fields / variants. "
+                     "The attribute parser is outside (the check starts from parsed entries).",
+                tech="symbolic execution of rustc MIR + z3, encoder validation against the real macro, native replay of models"),
+    "C14": dict(engine="E3 mir-smt", ref="DESIGN.md §3, §6 C14",
+                text="Symbolic path execution of the attribute-ownership kernel (HelperAttributeKinds::{is_match, extend}, remove_attrs, the two attribute-macro entry functions) with z3. "
+                     "Restricted scope: token-for-token survival of the rest of the item is not decided.",
+                note="Trusted: rustc's MIR dump, executor semantics, z3. Restricted claim: which attributes are stripped, at all three levels, also when derivation fails.",
+                tech="symbolic execution of rustc MIR + z3"),
+    "C17": dict(engine="E3 mir-smt", ref="DESIGN.md §3, §6 C17",
+                text="Symbolic path execution of build_eq_body / build_eq_checker / build_compare_op with z3: the hidden assertion applies the Eq-bounded helper to exactly the compared "
+                     "components, the helper carries the Eq bound and sits in a type-checked function item. Restricted scope: that rustc rejects a non-Eq argument is not re-checked.",
+                note="Trusted: rustc's MIR dump, executor semantics, z3. Macro side of the assertion only.",
+                tech="symbolic execution of rustc MIR + z3, native replay of models"),
     "C18": dict(engine="E1 kani-gen", ref="DESIGN.md §6 C18",
                 text="Kani/CBMC decides pointer identity of deref()/deref_mut() with the field, Target identity (type-level) and that writes land in the field, for all field values.",
                 note=E1_NOTE + " The arity rejection (0 or >=2 fields) is outside this check.", tech="Kani/CBMC bounded model checking of macro-generated Deref/DerefMut impls"),
